@@ -184,7 +184,14 @@ def determinism(tier: str = "quick", known: list | None = None, **_: Any) -> dic
             for label, d in variants:
                 other = _gen_subprocess(d, hs, {})
                 n += 1
-                if other != base:
+                if label != "hash seed":
+                    # diagnostics are reported in document order: a reordered document may list the same diagnostics in
+                    # another order (the property speaks about classes, modules, functions and their contents)
+                    other = dict(other, errors=sorted(other["errors"]))
+                    ref = dict(base, errors=sorted(base["errors"]))
+                else:
+                    ref = base
+                if other != ref:
                     diff = sorted(k for k in set(base["files"]) | set(other["files"]) if base["files"].get(k) != other["files"].get(k))
                     wit.append({"what": f"skeleton {name}: output differs under {label} (PYTHONHASHSEED={hs})", "input": {"skeleton": name, "hashseed": hs, "doc": d}, "observed": {"differing_files": diff[:8], "errors": other["errors"][:3]}, "reproduced": True, "replay_func": "vlib.replay_checks:replay_determinism"})
                     break
@@ -195,6 +202,7 @@ def replay_determinism(w: dict) -> dict:
     i = w["input"]
     base = _gen_subprocess(all_skeleton_docs()[i["skeleton"]], 0, {})
     other = _gen_subprocess(i["doc"], i["hashseed"], {})
+    base, other = dict(base, errors=sorted(base["errors"])), dict(other, errors=sorted(other["errors"]))
     return {"reproduced": base != other, "observed": sorted(k for k in set(base["files"]) | set(other["files"]) if base["files"].get(k) != other["files"].get(k))[:8]}
 
 
